@@ -62,6 +62,7 @@ type Sched struct {
 	timerSeq      int
 	abortCh       chan struct{}
 	noTimers      bool // timers never fire (harness option)
+	timersTogether bool // all timers due at the same instant fire before any goroutine runs (harness option)
 	switches      int
 	yieldOnly     bool
 	preemptBudget int  // remaining preemptions at synchronisation operations (G2)
@@ -516,10 +517,29 @@ func (e *Exec) fireNextTimer() bool {
 		}
 		return act[i].seq < act[j].seq
 	})
+	if s.timersTogether {
+		// every timer that is due at that instant fires
+		at := act[0].when
+		if at > s.now {
+			s.now = at
+		}
+		for _, t := range act {
+			if t.when > s.now {
+				break
+			}
+			e.fireTimer(t)
+		}
+		return true
+	}
 	t := act[0]
 	if t.when > s.now {
 		s.now = t.when
 	}
+	e.fireTimer(t)
+	return true
+}
+
+func (e *Exec) fireTimer(t *timer) {
 	if t.period > 0 {
 		t.when += t.period
 	} else {
@@ -533,7 +553,6 @@ func (e *Exec) fireNextTimer() bool {
 	if t.fn != nil {
 		t.fn()
 	}
-	return true
 }
 
 // preemptPoint is called before synchronisation operations (locks, atomics,
